@@ -57,7 +57,7 @@ func (S) Info() scen.Info {
 			"goroutine scheduling":   "stub: single walker task under the seeded scheduler",
 		},
 		QuickUnits: 2500, ThoroughUnits: 150000, QuickSecs: 240, ThoroughSecs: 1200,
-		ProbeKeys: []string{"probe.walklocal_visitor_skipme_cut", "probe.focus_nodebudget_cut", "probe.focus_linkbudget_cut", "probe.transform_once_cut", "probe.transform_linkbudget_cut", "probe.transform_skip_cut", "probe.budget_cut_mid_block", "probe.linkbudget_cut", "probe.startat_inside_linked_block", "probe.startat_skipped_load", "probe.once_pruned", "probe.skipme_pruned", "probe.resume_concat_checked", "probe.w0_ended_in_error", "probe.repeated_link", "probe.matching_walk", "probe.transform_budget_cut", "probe.walklocal_budget_cut"},
+		ProbeKeys: []string{"probe.walk_repeated_with_same_config", "probe.walklocal_visitor_skipme_cut", "probe.focus_nodebudget_cut", "probe.focus_linkbudget_cut", "probe.transform_once_cut", "probe.transform_linkbudget_cut", "probe.transform_skip_cut", "probe.budget_cut_mid_block", "probe.linkbudget_cut", "probe.startat_inside_linked_block", "probe.startat_skipped_load", "probe.once_pruned", "probe.skipme_pruned", "probe.resume_concat_checked", "probe.w0_ended_in_error", "probe.repeated_link", "probe.matching_walk", "probe.transform_budget_cut", "probe.walklocal_budget_cut"},
 		EventsKey: "events",
 	}
 }
@@ -209,6 +209,11 @@ type world struct {
 	sel  selector.Selector
 	cur  *[]ev
 	skip map[string]bool
+
+	o       *sim.Outcome
+	fullCfg bool // walks get a Config with Ctx and chooser set (nothing for init to fill in)
+	reuse   bool // ... and every walk is repeated with the same *Config object
+	reused  int
 }
 
 const maxEvents = 320
@@ -217,9 +222,6 @@ var errTooLong = errors.New("harness: walk longer than the bound")
 
 // walk runs one (possibly restricted) walk.
 func (w *world) walk(matching bool, budget *traversal.Budget, startAt datamodel.Path, once bool, skip map[string]bool) walkRes {
-	var res walkRes
-	w.cur = &res.evs
-	w.skip = skip
 	cfg := &traversal.Config{
 		LinkSystem:        w.lsys,
 		LinkVisitOnlyOnce: once,
@@ -228,6 +230,41 @@ func (w *world) walk(matching bool, budget *traversal.Budget, startAt datamodel.
 			return basicnode.Prototype.Any, nil
 		},
 	}
+	if w.fullCfg {
+		cfg.Ctx = context.Background() // a Config that needs no defaults filled in: the walk works on the caller's object
+	}
+	var b1 *traversal.Budget
+	if budget != nil {
+		c := *budget
+		b1 = &c
+	}
+	res := w.walkWith(cfg, matching, b1, skip)
+	if w.fullCfg && w.reuse && res.pan == "" {
+		// the caller's Config is what it was, and a second walk with the same object is the same walk
+		if cfg.StartAtPath.String() != startAt.String() || cfg.LinkVisitOnlyOnce != once || cfg.Preloader != nil {
+			w.o.Fail("config-changed-by-walk", "Config", "after a walk the caller's Config reads StartAtPath=%q LinkVisitOnlyOnce=%v; it was given StartAtPath=%q LinkVisitOnlyOnce=%v", cfg.StartAtPath.String(), cfg.LinkVisitOnlyOnce, startAt.String(), once)
+		}
+		var b2 *traversal.Budget
+		if budget != nil {
+			c := *budget
+			b2 = &c
+		}
+		again := w.walkWith(cfg, matching, b2, skip)
+		if !sameEvents(again.evs, res.evs) || errClass(again.err) != errClass(res.err) {
+			w.o.Fail("config-reuse-differs", "Config", "a second walk with the same *Config object differs from the first: %s (outcomes %q then %q)", firstDiff(again.evs, res.evs), errClass(res.err), errClass(again.err))
+		}
+		w.reused++
+	}
+	if budget != nil && b1 != nil {
+		*budget = *b1
+	}
+	return res
+}
+
+func (w *world) walkWith(cfg *traversal.Config, matching bool, budget *traversal.Budget, skip map[string]bool) walkRes {
+	var res walkRes
+	w.cur = &res.evs
+	w.skip = skip
 	prog := traversal.Progress{Cfg: cfg, Budget: budget}
 	record := func(p traversal.Progress, n datamodel.Node, r traversal.VisitReason) error {
 		if len(res.evs) > maxEvents {
@@ -271,7 +308,9 @@ func (S) RunTape(t *sim.Tape, st *sim.Stats, keepLog bool) *sim.Outcome {
 	s := sim.NewSim(t, sim.NewChanBaton())
 	s.Log.Keep = keepLog
 	s.MaxSteps = 2000000
-	w := &world{s: s, t: t}
+	w := &world{s: s, t: t, o: o}
+	w.fullCfg = t.Bool("cfg.fullconfig")
+	w.reuse = t.Pct(40, "cfg.reuseconfig")
 	ms := &memstore.Store{}
 	w.lsys = cidlink.DefaultLinkSystem()
 	basicStore := t.Bool("cfg.basicstore")
@@ -1062,6 +1101,7 @@ func (S) RunTape(t *sim.Tape, st *sim.Stats, keepLog bool) *sim.Outcome {
 	o.Aux = info
 	o.Events, o.Capped, o.LogHash, o.Log = s.Seq, s.Capped, s.Log.H, s.Log.Lines
 	st.Inc("runs")
+	st.Add("probe.walk_repeated_with_same_config", int64(w.reused))
 	st.Inc("runs.ctl." + ctlNames[ctl])
 	st.Add("events", int64(s.Seq))
 	if info.TooLong {
